@@ -3,4 +3,5 @@ import P2sh.Gen.Limits
 import P2sh.Gen.Props
 import P2sh.Gen.Builtins
 import P2sh.Gen.ParseRules
+import P2sh.Gen.MatchTypes
 import P2sh.Model.Code
